@@ -427,6 +427,30 @@ func init() {
 		return v
 	}
 	ext["math/rand.Seed"] = func(fr *frame, a []value) value { return nil }
+	// *rand.Rand objects: an opaque handle; Intn is an environment choice (which pooled
+	// connection), Int31 one of a few representative bases incl. the largest
+	ext["math/rand.NewSource"] = func(fr *frame, a []value) value { return iface{} }
+	ext["math/rand.New"] = func(fr *frame, a []value) value { var cell value = structure{}; return &cell }
+	ext["(*math/rand.Rand).Intn"] = func(fr *frame, a []value) value {
+		n := int(asInt64(a[1]))
+		if n <= 0 {
+			panic(targetPanic{"invalid argument to Intn"})
+		}
+		if n == 1 {
+			return 0
+		}
+		if n > 8 {
+			return 0 // jitter for back-off delays: time is not modelled, the value is irrelevant
+		}
+		return fr.i.ex.Choice(n, "randintn")
+	}
+	ext["(*math/rand.Rand).Int31"] = func(fr *frame, a []value) value {
+		// a fixed rotation of representative bases (no fork: nothing but distinctness of the
+		// tokens inside one batch depends on the value)
+		vals := []int32{0x7ffffff0, 7, 0, 0x7fffffff}
+		fr.i.env.randCalls++
+		return vals[fr.i.env.randCalls%len(vals)]
+	}
 
 	// ---- md5 (native on concrete input)
 	ext["crypto/md5.Sum"] = func(fr *frame, a []value) value {
